@@ -4503,6 +4503,139 @@ theorem insertInlineOp_residual (S : Schema) (htr : compatTransB S = true) (htl 
   have h2 := editResidual_of' S hdet hfill hwrap hlab hleaf hts hcl hst _ tr tr1 hlen hI hb h h1
   exact editOp_residual S htr htl hdet hfill hwrap hlab hleaf hts hcl hst _ tr tr1 rfl hlen hml hI hb h h2
 
+/-! #### `RecordedNorm` discharged: the Fitter emits normal-form slices (`C11.fit_emits_norm`) -/
+
+/-- the step `replace_step` answers for a request slice in normal form has a slice in normal form -/
+theorem recordedNorm_of_fit (S : Schema) (doc : Node) (f t : Nat) (sl : Slice) (hsn : fnorm sl.content = true)
+    (s : Step) (hr : replaceStep S doc f t sl = .ok (some s)) : RecordedNorm s := by
+  have h := PM.C11.fit_emits_norm S doc f t sl hsn s hr
+  cases s with
+  | replace _ _ sl' _ => exact h sl' rfl
+  | replaceAround _ _ _ _ sl' _ _ => exact h sl' rfl
+  | _ => trivial
+
+/-- **what is asked of an operation of an editing history — nothing about a recorded step.**
+    `replace(f, t, slice)`: `f ≤ t`, `nodeAttrsOK` of the current document, and by class
+    * **deletion** (`Slice.empty`): nothing more;
+    * **typing / inline leaves** (`inlineLeaves`, `closedValid`) with BMP text: the slice in normal form;
+    * **loosely valid / cut from a valid document**: the run hypothesis `unplacedWfRun`, BMP text in the slice (or a
+      BMP result), the slice in normal form.
+    Every other operation: `MixedResidual`.  (`EditHyps` with `RecordedNorm` of the emitted slice replaced by `fnorm`
+    of the *request* slice.) -/
+def EditHyps' (S : Schema) (op : Op) (tr tr1 : Tr) : Prop :=
+  match op with
+  | .replace f t sl => f ≤ t ∧ S.nodeAttrsOK tr.doc = true ∧
+      (sl = Slice.empty ∨
+       (sl.inlineLeaves S = true ∧ sl.closedValid S = true ∧ sliceBmp sl = true ∧ fnorm sl.content = true) ∨
+       (((sl.looseValid S = true ∧ sl.wf = true) ∨ ∃ src a b, C01.Valid S src ∧ src.slice a b = .ok sl) ∧
+          unplacedWfRun S tr.doc f t sl = true ∧ (sliceBmp sl = true ∨ bmpDoc tr1.doc = true) ∧
+          fnorm sl.content = true))
+  | op => MixedResidual S op tr tr1
+
+/-- the class "cut from a valid document" of `EditHyps'` needs no separate normal-form hypothesis when the source
+    document is in normal form (cutting preserves it: `sliceKids_norm`) — e.g. a slice copied from a document of
+    the history itself (`FamilyInv`) -/
+theorem editHyps'_of_cut (S : Schema) (tr tr1 : Tr) (f t : Nat) (sl : Slice) (hft : f ≤ t)
+    (hattrs : S.nodeAttrsOK tr.doc = true) (src : Node) (a b : Nat) (hv : C01.Valid S src)
+    (hsn : fnorm src.kids = true) (hcut : src.slice a b = .ok sl)
+    (hrun : unplacedWfRun S tr.doc f t sl = true) (hb1 : sliceBmp sl = true ∨ bmpDoc tr1.doc = true) :
+    EditHyps' S (.replace f t sl) tr tr1 :=
+  ⟨hft, hattrs, Or.inr (Or.inr ⟨Or.inr ⟨src, a, b, hv, hcut⟩, hrun, hb1,
+    (sliceKids_norm src.kids a b sl hsn hcut).1⟩)⟩
+
+/-- `EditHyps'` implies `EditHyps` -/
+theorem editHyps_of' (S : Schema) (op : Op) (tr tr1 : Tr) (hlen : tr.steps.length = tr.docs.length)
+    (h : tr.runOp S op = some tr1) (hres : EditHyps' S op tr tr1) : EditHyps S op tr tr1 := by
+  cases op with
+  | replace f t sl =>
+    obtain ⟨hft, hattrs, hk⟩ := hres
+    refine ⟨hft, hattrs, ?_⟩
+    have key : fnorm sl.content = true → HistAll (fun s _ _ => RecordedNorm s) (appended tr tr1) tr1.doc := by
+      intro hsn
+      rcases replaceOp_recorded S tr tr1 hlen f t sl h with ⟨e, _⟩ | ⟨s, hr, e, _⟩
+      · rw [e]; trivial
+      · rw [e]
+        exact ⟨recordedNorm_of_fit S tr.doc f t sl hsn s hr, trivial⟩
+    rcases hk with rfl | ⟨hsl, hslv, hsb, hsn⟩ | ⟨hk, hrun, hb1, hsn⟩
+    · exact Or.inl rfl
+    · exact Or.inr (Or.inl ⟨hsl, hslv, hsb, key hsn⟩)
+    · exact Or.inr (Or.inr ⟨hk, hrun, hb1, key hsn⟩)
+  | _ => exact hres
+
+/-- on a BMP document, an editing run with `EditHyps'` meets `OpResidual` -/
+theorem editOps_hyps' (S : Schema) (htr : compatTransB S = true) (htl : TextLoop S)
+    (hdet : PM.C11.detB S = true) (hfill : S.fillersOKB = true)
+    (hwrap : S.wrapOKB = true) (hlab : S.labelsOKB = true) (hleaf : PM.FromDom.leafOkB S = true)
+    (hts : textStableC S = true) (hcl : S.closableB = true) (hst : PM.FromDom.textStableB S = true) :
+    ∀ (ops : List Op) (tr : Tr), tr.steps.length = tr.docs.length → tr.maps.length = tr.steps.length →
+    FamilyInv S tr.doc → bmpDoc tr.doc = true →
+    (∀ op ∈ ops, editOp op = true) → OpsAll S (EditHyps' S) tr ops → OpsAll S (OpResidual S) tr ops
+  | [], _, _, _, _, _, _, _ => trivial
+  | op :: ops, tr, hlen, hml, hI, hb, hall, hres => by
+    simp only [OpsAll] at hres ⊢
+    cases h1 : tr.runOp S op with
+    | none => trivial
+    | some tr1 =>
+      simp only [h1] at hres ⊢
+      have hop := hall op (List.mem_cons_self ..)
+      have hres00 := editHyps_of' S op tr tr1 hlen h1 hres.1
+      have hres0 := editResidual'_of_hyps S htl op tr tr1 hlen hI hb h1 hres00
+      have hres1 := editResidual_of' S hdet hfill hwrap hlab hleaf hts hcl hst op tr tr1 hlen hI hb h1 hres0
+      obtain ⟨hr1, hb1⟩ := editOp_residual S htr htl hdet hfill hwrap hlab hleaf hts hcl hst op tr tr1 hop hlen hml
+        hI hb h1 hres1
+      refine ⟨hr1, ?_⟩
+      obtain ⟨h2, e1, l1, n1, r1⟩ := (Tr.runOp_grows op h1).hist hlen
+      have g1 := op_family S op tr tr1 hlen hI h1 hr1
+      rw [appended_eq e1] at g1
+      have hI1 : FamilyInv S tr1.doc :=
+        (chain_of_invariant S (FamilyInv S) (FamilyGuard S) (family_step S htr htl) h2 tr1.doc
+          (by rw [n1]; exact hI) r1 g1).2
+      exact editOps_hyps' S htr htl hdet hfill hwrap hlab hleaf hts hcl hst ops tr1 l1
+        ((Tr.runOp_grows op h1).maps_len hml) hI1 hb1
+        (fun o ho => hall o (List.mem_cons_of_mem _ ho)) hres.2
+
+/-- **an editing history is undone exactly — no hypothesis about any recorded step.**  As `editHistory_undo`, with
+    `EditHyps'`: for the `replace` classes other than deletion the *request* slice is in normal form (`fnorm`), and
+    the normal form of the slice the Fitter emits is derived (`C11.fit_emits_norm`).  What is left per `replace`
+    operation: `f ≤ t`, `nodeAttrsOK` of the current document, the class of the slice, BMP text, its normal form,
+    and for loosely valid / cut slices the run hypothesis `unplacedWfRun`. -/
+theorem editHistory_undo' (S : Schema) (htr : compatTransB S = true) (htl : TextLoop S)
+    (hdet : PM.C11.detB S = true) (hfill : S.fillersOKB = true)
+    (hwrap : S.wrapOKB = true) (hlab : S.labelsOKB = true) (hleaf : PM.FromDom.leafOkB S = true)
+    (hts : textStableC S = true) (hcl : S.closableB = true) (hst : PM.FromDom.textStableB S = true)
+    (doc : Node) (ops : List Op) (tr' : Tr) (hd : S.checkNode doc = true) (hn : fnorm doc.kids = true)
+    (hb : bmpDoc doc = true) (hall : ∀ op ∈ ops, editOp op = true)
+    (h : (Tr.init doc).runOps S ops = some tr')
+    (hres : OpsAll S (EditHyps' S) (Tr.init doc) ops) :
+    tr'.undo S = .ok doc ∧ FamilyInv S tr'.doc :=
+  opHistory_undo S htr htl doc ops tr' hd hn h
+    (editOps_hyps' S htr htl hdet hfill hwrap hlab hleaf hts hcl hst ops (Tr.init doc) rfl rfl ⟨hd, hn⟩ hb
+      hall hres)
+
+/-- **typing / inserting inline leaves as a whole operation, no hypothesis about the recorded step**: the typed
+    slice (`inlineLeaves`, `closedValid`, BMP text) in normal form -/
+theorem insertInlineOp_residual' (S : Schema) (htr : compatTransB S = true) (htl : TextLoop S)
+    (hdet : PM.C11.detB S = true) (hfill : S.fillersOKB = true)
+    (hwrap : S.wrapOKB = true) (hlab : S.labelsOKB = true) (hleaf : PM.FromDom.leafOkB S = true)
+    (hts : textStableC S = true) (hcl : S.closableB = true) (hst : PM.FromDom.textStableB S = true)
+    (tr tr1 : Tr) (hlen : tr.steps.length = tr.docs.length) (hml : tr.maps.length = tr.steps.length)
+    (hI : FamilyInv S tr.doc) (hb : bmpDoc tr.doc = true) (hattrs : S.nodeAttrsOK tr.doc = true)
+    (f t : Nat) (hft : f ≤ t) (sl : Slice) (hsl : sl.inlineLeaves S = true) (hslv : sl.closedValid S = true)
+    (hsb : sliceBmp sl = true) (hsn : fnorm sl.content = true) (h : tr.runOp S (.replace f t sl) = some tr1) :
+    OpResidual S (.replace f t sl) tr tr1 ∧ bmpDoc tr1.doc = true :=
+  insertInlineOp_residual S htr htl hdet hfill hwrap hlab hleaf hts hcl hst tr tr1 hlen hml hI hb hattrs f t hft sl
+    hsl hslv hsb h
+    (by
+      have := editHyps_of' S (.replace f t sl) tr tr1 hlen h
+        ⟨hft, hattrs, Or.inr (Or.inl ⟨hsl, hslv, hsb, hsn⟩)⟩
+      rcases this.2.2 with e | ⟨_, _, _, hh⟩ | ⟨_, _, _, hh⟩
+      · subst e
+        rcases replaceOp_recorded S tr tr1 hlen f t _ h with ⟨e, _⟩ | ⟨s, hr, e, _⟩
+        · rw [e]; trivial
+        · rw [e]; exact ⟨recordedNorm_of_fit S tr.doc f t _ hsn s hr, trivial⟩
+      · exact hh
+      · exact hh)
+
 /-! #### non-vacuity of `editHistory_undo_bmp'`: schema `doc: para*`, `para: text*`, document `doc(para("ab"))` -/
 
 private def nvNt (name : String) (dfa : Array DfaState) : NodeType :=
@@ -4590,6 +4723,23 @@ example : ∃ tr', (Tr.init nvDoc).runOps nvS [.replace 1 2 Slice.empty] = some 
 example : ∃ tr', (Tr.init nvDoc).runOps nvS [.replace 1 2 Slice.empty] = some tr' ∧ tr'.undo nvS = .ok nvDoc := by
   obtain ⟨tr1, h, _⟩ := nv_run
   refine ⟨tr1, h, (editHistory_undo nvS (by decide) (PM.Family.textLoop_of_B _ (by decide)) (by decide)
+    (by decide) (by decide) (by decide) (by decide) (by decide) (by decide) (by decide) nvDoc _ tr1 (by decide)
+    (by decide) (by decide) (by decide) h ?_).1⟩
+  simp only [OpsAll]
+  split
+  · exact ⟨⟨by decide, rfl, Or.inl rfl⟩, trivial⟩
+  · trivial
+/-- **non-vacuity of `editHistory_undo'`**: the per-operation hypotheses of the typing class hold for typing "c"
+    (`EditHyps'` asks nothing about the recorded step), the step recorded for it is derived to be in normal form, and
+    the deletion history is undone through `editHistory_undo'` -/
+example : (nvTyped.inlineLeaves nvS = true ∧ nvTyped.closedValid nvS = true ∧ sliceBmp nvTyped = true ∧
+      fnorm nvTyped.content = true) ∧
+    RecordedNorm (.replace 1 1 nvTyped false) ∧
+    ∃ tr', (Tr.init nvDoc).runOps nvS [.replace 1 2 Slice.empty] = some tr' ∧ tr'.undo nvS = .ok nvDoc := by
+  refine ⟨⟨by decide, by decide, by decide, by decide⟩,
+    recordedNorm_of_fit nvS nvDoc 1 1 nvTyped (by decide) _ rfl, ?_⟩
+  obtain ⟨tr1, h, _⟩ := nv_run
+  refine ⟨tr1, h, (editHistory_undo' nvS (by decide) (PM.Family.textLoop_of_B _ (by decide)) (by decide)
     (by decide) (by decide) (by decide) (by decide) (by decide) (by decide) (by decide) nvDoc _ tr1 (by decide)
     (by decide) (by decide) (by decide) h ?_).1⟩
   simp only [OpsAll]
